@@ -97,7 +97,15 @@ def run_case(acc, seed, idx):
         moves = ['amend', 'rebase', 'extend', 'rewind', 'move_dst',
                  'manual', 'manual', 'manual_merge', 'eval', 'eval']
         rng.shuffle(moves)
-        for mv in moves[:rng.randrange(1, 7)]:
+        moves = moves[:rng.randrange(1, 7)]
+        if rng.random() < 0.35:
+            # manual work buried under later robot merges: manual commit,
+            # then the source or the destination moves, then an evaluation
+            # puts robot merge commits on top of it
+            moves = [rng.choice(['manual', 'manual_merge']),
+                     rng.choice(['extend', 'move_dst']), 'eval'] + \
+                moves[:rng.randrange(0, 3)]
+        for mv in moves:
             heads = w.refs()[0]
             if mv == 'amend':
                 w.do('amend', branch=p['src'])
